@@ -83,6 +83,10 @@ CLAIMS = {
             "Proof (partial): C20_refs_closed (every $ref of every output and definition names a key of the final definitions, over any sequence of builds on one context), C20_wf (metaschema-relevant well-formedness), C20_total on ranked (acyclic) class tables, C20_cyclic_diverges (known finding D10), C20_K9_prefix / C20_K9_ref_names_key over the kernel re-translated each run. The JSONSchema.from_dict/to_dict round trip and everything outside the model grammar are checked on the real code by the oracle only; 10 known findings. Closed under the global context.",
             "Trusted: Coq kernel + vm_compute; the K9 plugin with its structure-checked slices; the model grammar; the jsonschema package (check_schema); the generator's known-finding predicates.",
             "4 C20"),
+    "C17": ("Coq proof of a definite-assignment + free-name analysis (soundness over a nondeterministic semantics: every branch, exception edge, loop count) with per-program translation validation: every generated program captured on this run is translated fail-closed from its Python ast and gets a kernel-checked check_closed = true; setdefault-namespace binding model; dis-based oracle on the real code objects",
+            "Proof: C17_closed_sound (check_closed p = true implies no execution path of p, including error paths never exercised, raises NameError/UnboundLocalError), C17_shard_sound (instantiated for every captured program: ~4.8k per quick run, ~57k thorough), C17_attrs_closed_sound; identity binding C17_binding_partial under injective rendered names, refuted for same-named classes and clean_id collisions (known findings). Quantification over schemas is by sampling; per captured program it is a proof for all inputs and paths. Closed under the global context.",
+            "Trusted: Coq kernel + vm_compute; Closed.v as a model of CPython name lookup (function frames LOAD_FAST, comprehension scopes, module-level LOAD_NAME, except-as unbinding); harness/c17_translate.py (fail-closed ast translator); the exec-rebinding capture (checked each run that no other exec/eval site exists); module/class attribute chains and type identity are checked by the oracle only.",
+            "4 C17"),
 }
 
 ALL = [f"C{i:02d}" for i in range(1, 21)]
